@@ -30,6 +30,42 @@ package bmatch
 //@   loop 1: invariant -1 <= rangeindex && rangeindex < len(m.fieldMatches) && fields === record.Fields
 //@   loop 1: invariant forall j int :: 0 <= j && j <= rangeindex ==> vmatch(ref(m.fieldMatches[j].match), record.Fields[m.fieldMatches[j].locator])
 
+// ---- match operators: the documented meaning of each tag (valuematch.go), for every value and every accepted expression.
+// The closures are verified as units of their own; `expr` / `target` are the captured constructor arguments.
+//@ func createValueMatcherStringAny$1(v string) bool
+//@   modifies nothing
+//@   ensures[str-any-matches-exactly-the-non-empty-values] result <==> len(v) > 0
+//@ func createValueMatcherStringEqualsTo$1(v string) bool
+//@   modifies nothing
+//@   ensures[str-eq-matches-exactly-the-equal-value] result <==> v == expr
+//@ func createValueMatcherStringNotEqualsTo$1(v string) bool
+//@   modifies nothing
+//@   ensures[str-not-matches-exactly-the-unequal-values] result <==> v != expr
+//@ func createValueMatcherStringStartsWith$1(v string) bool
+//@   modifies nothing
+//@   ensures[str-start-matches-exactly-the-values-beginning-with-expr] result <==> occ(v, 0, expr)
+//@ func createValueMatcherStringEndsWith$1(v string) bool
+//@   modifies nothing
+//@   ensures[str-end-matches-exactly-the-values-ending-with-expr] result <==> (len(expr) <= len(v) && occ(v, len(v) - len(expr), expr))
+//@ func createValueMatcherStringContains$1(v string) bool
+//@   modifies nothing
+//@   ensures[str-contain-matches-exactly-the-values-containing-expr] result <==> exists p int :: occ(v, p, expr)
+//@ func createValueMatcherLengthGreaterThan$1(v string) bool
+//@   modifies nothing
+//@   ensures[len-gt-matches-exactly-the-longer-values] result <==> len(v) > target
+//@ func createValueMatcherLengthLessThan$1(v string) bool
+//@   modifies nothing
+//@   ensures[len-lt-matches-exactly-the-shorter-values] result <==> len(v) < target
+// !!regex = "Go regular expression match" and !!glob: the matcher built for an expression is the library's match for the
+// compiled expression, on every value including the empty one (rematch / globmatch: the trusted engines, stdlib.spec)
+//@ func lemmaRegexOperator(expr string, v string) (bool, error)
+//@   modifies nothing
+//@   ensures[regex-operator-is-the-regular-expression-match] result.1 == nil ==> (result.0 <==> rematch(key(expr), key(v)))
+//@   ensures[regex-operator-accepts-every-valid-expression] compiles(key(expr)) ==> result.1 == nil
+//@ func lemmaGlobOperator(expr string, v string) (bool, error)
+//@   modifies nothing
+//@   ensures[glob-operator-is-the-glob-match] result.1 == nil ==> (result.0 <==> globmatch(key(expr), key(v)))
+
 // ==== configuration: verify => construct (C16) ===================================================================================
 // every match key is a schema field and has a compiled value matcher
 //@ pure func mcfgok(m LogMatcherConfig, s base.LogSchema) bool := forall k int :: rawhas(m, k) ==> base.hasf(s, k) && rawget(m, k).match != nil
